@@ -19,6 +19,18 @@ META = {
          "Bounds: payload sizes {0,1,2,9,16,24} (thorough adds 40,70), limits 0..size+2, four bundle variants (block mixes, CRC patterns, endpoint forms). Outside: other sizes, >2 extension blocks.", "DESIGN.md 5/C09"),
  "C10": ("Bounded symbolic model checking of reassembly: all collections of <= 3 (thorough: 4) fragments with arbitrary offsets/lengths (duplicates, overlaps, containment, gaps, any order) over payloads of <= 4 (5) symbolic bytes: succeeds iff covering, returns the original payload, never panics; second-level fragmentation keeps original offsets/total and mixed/overlapping sets reassemble byte-identically.",
          "Bounds as stated; storage.BundleItem.IsComplete is checked under C08 when claimed. Outside: more fragments, longer payloads, three-level fragmentation.", "DESIGN.md 5/C10"),
+ "C04": ("Bounded symbolic model checking of every decoder reachable from the network or clients with the engine's implicit obligations (no panic, termination within the instruction budget) and an allocation policy (no make/append sized by a value from the input above max(1 MiB, 64*len(input))): N fully symbolic bytes into ParseBundle, each block/endpoint/ID/status-report/administrative-record decoder, the TCPCLv4 message reader (26 bytes: every length field an arbitrary value of its wire width), discovery and WebSocket-agent decoders, BBC fragments; 1-2 byte symbolic windows and truncation over administrative-record and data bundle templates; endpoint strings; the peer-declared segment MRU as an arbitrary 64-bit value.",
+         "Bounds: free inputs of 5-9 bytes for CBOR decoders (path count grows ~1.9^N), 26 bytes for fixed-layout messages, windows <= 2 bytes. Sizes beyond the declared input length are represented by one value (after io.ReadFull fails only the count matters). Outside: longer free inputs, encoding/json request bodies, websocket frames, the xz decoder (identity model), TLS.", "DESIGN.md 5/C04"),
+ "C06": ("Solver-checked kernels of the forwarding rules on the real code: hop-count sequence over the full 256x256 square (refused iff count+1 > limit, transmitted count = count+1, restored afterwards), Bundle.IsLifetimeExceeded against the oracle for symbolic creation time / lifetime / age at a frozen clock (exact at the expiry instant), UpdateBundleAge = residence time in milliseconds for every residence of up to 10^4 s at microsecond resolution.",
+         "Division/remainder by constants decided by cvc5 --solve-bv-as-int=sum. The whole Core.forward path (faithful copy, previous node, retries, deletion from the store) needs the Core tier and is not claimed yet.", "DESIGN.md 5/C06"),
+ "C11": ("Bounded symbolic model checking of the real segmentation code: for every (length L, segment size m) pair with L <= 6 (thorough 14), 1 <= m <= L+2 - so every divisor case occurs - over the real io.Pipe with a writer goroutine: segments <= m, concatenation = data, START on exactly the first and END on exactly the last segment, each segment survives Marshal/Unmarshal, the receiver is finished exactly when END was sent and acknowledges L bytes.",
+         "Since TransferManager.Send returns success exactly when the acknowledged length equals the sent length, 'the last segment carries END' is the kernel form of 'success means delivered'. The manager's concurrent behaviour over real sockets is outside.", "DESIGN.md 5/C11"),
+ "C12": ("Bounded symbolic model checking of MTCP framing (1-2 bundles, keep-alives at arbitrary boundaries, a failing write at any of the first four writes, through the real MTCPClient.Send and MTCPServer.handleSender over an in-harness net.Conn) and of the BBC link layer (real OutgoingTransmission / Connector.handleIncomingFragment: trains of up to ~65 fragments crossing the mod-16 wrap, every single drop / duplication / adjacent swap at every position).",
+         "xz is the identity codec in the model (the harness is codec-agnostic, so native replays with real xz agree). Outside: real sockets/modems, concurrent transmissions with colliding ids, multi-fault patterns, loss of the final fragment cannot be signalled without a timer (the check requires only 'nothing delivered').", "DESIGN.md 5/C12"),
+ "C15": ("Bounded symbolic model checking of status report construction: NewStatusReport over all 2^21 control-flag combinations, every position, fragments and whole bundles, symbolic reason/time/ID fields: exactly the event's item asserted, time iff requested, exact bundle ID incl. fragment offset/length; packaged through the builder chain Core.SendStatusReport uses: administrative record without request flags addressed to report-to, decodable, naming the same ID.",
+         "The decision logic in Core (when to report, about what) needs the Core tier and is not claimed yet.", "DESIGN.md 5/C15"),
+ "C17": ("Bounded symbolic model checking of the auxiliary wire formats: every TCPCLv4 message type with fully symbolic integer fields (and two messages back to back) round-trips through Marshal/ReadMessage with exact stream alignment; code/magic/version/type bytes are arbitrary bytes and are accepted exactly for the enumerated values; bundle IDs, status reports / administrative records, creation timestamps, endpoint IDs in CBOR, announcements, WebSocket-agent messages and BBC headers round-trip with alignment; NewEndpointID over symbolic ASCII text is accepted exactly per a reference grammar, parse(print(e)) == e, and equal URI text implies equal structure.",
+         "Bounds: strings of <= 3 symbolic bytes in messages, endpoint text <= 4 (thorough 6) symbolic bytes after the scheme prefix, ipn numbers <= 3 digits in text form (full 64 bit in CBOR form). Outside: longer strings, non-ASCII endpoint text.", "DESIGN.md 5/C17"),
 }
 
 NA_REASON = {}
